@@ -281,9 +281,11 @@ def run_driver(text, extra_args=()):
 
 
 def parse_driver(out):
-    res = {"mismatch": [], "specfail": [], "badline": [], "stat": {}, "total": {}}
+    res = {"mismatch": [], "specfail": [], "badline": [], "stat": {}, "total": {}, "samples": []}
     for line in out.split("\n"):
-        if line.startswith("MISMATCH "):
+        if line.startswith("SAMPLE "):
+            res["samples"].append(line[7:])
+        elif line.startswith("MISMATCH "):
             res["mismatch"].append(line[9:])
         elif line.startswith("SPECFAIL "):
             cls, rest = line[9:].split(" ", 1)
@@ -301,8 +303,9 @@ def parse_driver(out):
 
 
 def merge_results(rs):
-    out = {"mismatch": [], "specfail": [], "badline": [], "stat": {}, "total": {}}
+    out = {"mismatch": [], "specfail": [], "badline": [], "stat": {}, "total": {}, "samples": []}
     for r in rs:
+        out["samples"] += r["samples"][:2]
         out["mismatch"] += r["mismatch"]
         out["specfail"] += r["specfail"]
         out["badline"] += r["badline"]
@@ -511,7 +514,7 @@ def check(pid, tier, seed):
     samples = []
     for r in merged["per_tu"][:3]:
         pass
-    samples = getattr(mod, "samples", lambda m: [])(merged) or [f"{k}={v}" for k, v in list(merged["stat"].items())[:8]]
+    samples = merged["samples"][:12] or [f"{k}={v}" for k, v in list(merged["stat"].items())[:8]]
     ev = {
         "property_id": pid, "tier": tier, "seed": seed, "level": "proof",
         "coverage": {
